@@ -26,28 +26,52 @@ ENUMERATION = 'statement regexes, token regexes, splitter sites, continuation si
 
 
 def check_split(chk, pm):
+    """C10.S by abstract execution of parse_script's prologue: the string form and the chunk form of the input are cut into the same line list by one regex"""
+    from ..absint import Interp, ARegex, AList, Sym, RaiseSig, ReturnSig
     mod, func = pm.mod, pm.func
-    sites = []
-    for s in pm.prologue:
-        for n in ast.walk(s):
-            if isinstance(n, ast.Call) and isinstance(n.func, ast.Attribute) and n.func.attr == 'split' and isinstance(n.func.value, ast.Name) and n.func.value.id in pm.regexes:
-                sites.append(n)
-    names = {n.func.value.id for n in sites}
-    if len(sites) < 2 or len(names) != 1:
-        chk.bad('C10.S', mod, 'parse_script', f'{len(sites)} split sites using {sorted(names)}',
-                'the string form and the chunk form of the input must both be split into lines by the same single regex', node=func)
+
+    class SplitInterp(Interp):
+        def method_hook(self, base, m, args, e):
+            if isinstance(base, ARegex) and m == 'split' and args and isinstance(args[0], str):
+                return AList([Sym('piece', base.name, args[0], 0), Sym('piece', base.name, args[0], 1)])
+            if isinstance(base, str) and m in ('splitlines',):
+                return AList([Sym('piece', 'str.splitlines', base, 0), Sym('piece', 'str.splitlines', base, 1)])
+            return NotImplemented
+    line_var = norm(pm.loop.iter)
+    lines_name = next((n.id for n in ast.walk(pm.loop.iter) if isinstance(n, ast.Name) and n.id not in ('enumerate',)), None)
+    results = {}
+    for form, value in (('one string', 'T'), ('a list of chunks', AList(['T1', 'T2'])), ('a tuple of chunks', ('T1', 'T2'))):
+        it = SplitInterp(mod, 'C10.S')
+        it.repo = chk.repo
+        env = {a.arg: Sym(a.arg) for a in func.args.args}
+        env[func.args.args[0].arg] = value
+        try:
+            for s_ in pm.prologue:
+                if isinstance(s_, ast.Expr) and isinstance(s_.value, ast.Constant):
+                    continue
+                it.exec_stmt(s_, env)
+            lines = env.get(lines_name)
+            results[form] = it.iterate(lines, pm.loop.iter)
+        except RaiseSig as sig:
+            chk.bad('C10.S', mod, 'parse_script', f'{form}: raises {sig.cls}', f'parse_script given {form} raises {sig.cls}{sig.args_!r} while splitting the input into lines', node=sig.node)
+            return
+    names = {p.args[0] for r in results.values() for p in r if isinstance(p, Sym) and p.kind == 'piece'}
+    want = {'one string': [('T', 0), ('T', 1)], 'a list of chunks': [('T1', 0), ('T1', 1), ('T2', 0), ('T2', 1)], 'a tuple of chunks': [('T1', 0), ('T1', 1), ('T2', 0), ('T2', 1)]}
+    for form, r in results.items():
+        got = [(p.args[1], p.args[2]) if isinstance(p, Sym) and p.kind == 'piece' else p for p in r]
+        if got == want[form]:
+            chk.ok('C10.S', f'input given as {form}: every part is split and all pieces are kept in order ({len(got)} pieces)')
+        else:
+            chk.bad('C10.S', mod, 'parse_script', f'{form}: line list {got!r}', f'parse_script given {form} builds the line list {got!r}; every part must be split by the line regex and all pieces kept, in order: {want[form]!r}',
+                    node=func)
+    if len(names) != 1:
+        chk.bad('C10.S', mod, 'parse_script', f'splitters {sorted(names)}', 'the string form and the chunk form of the input must both be split into lines by the same single regex', node=func)
         return
     rn = names.pop()
-    # both extend the same list
-    targets = set()
-    for n in sites:
-        par = getattr(n, '_parent', None)
-        if isinstance(par, ast.Call) and isinstance(par.func, ast.Attribute) and par.func.attr == 'extend':
-            targets.add(norm(par.func.value))
-    if len(targets) == 1 and norm(pm.loop.iter).find(next(iter(targets))) >= 0:
-        chk.ok('C10.S', f'both input forms extend the same line list through {rn}.split')
-    else:
-        chk.bad('C10.S', mod, 'parse_script', f'split results go to {sorted(targets)}', 'all pieces must be appended, in order, to the one list the line loop iterates', node=func)
+    if rn not in pm.regexes:
+        chk.bad('C10.S', mod, 'parse_script', f'lines are split by {rn}', f'the input is split into lines by {rn}, not by the optional-CR + LF regex: other characters end lines (or empty pieces are dropped)', node=func)
+        return
+    chk.ok('C10.S', f'both input forms are split by the one regex {rn}')
     tree = pm.regexes[rn].tree
     items = tree.kids
     good = len(items) == 2 and items[0].kind == 'rep' and (items[0].a, items[0].b) == (0, 1) and Rx.literal_of(items[0].kids[0]) == '\r' and Rx.literal_of(items[1]) == '\n'
